@@ -6,8 +6,8 @@ use std::sync::Arc;
 
 use serde::{Deserialize, Serialize};
 
-use super::{Obs, ObsBuf, Source, align, observe};
-use crate::genr::{bytes as gbytes, sam as gsam};
+use super::{Obs, ObsBuf, Source, align, observe, text, variant};
+use crate::genr::{bytes as gbytes, sam as gsam, text as gtext, vcf as gvcf};
 use crate::kernel::Rng;
 use crate::model::bgzf as mbgzf;
 
@@ -18,12 +18,39 @@ pub enum Kind {
     SamGz,
     Bam,
     BamRaw,
+    Vcf,
+    VcfGz,
+    Bcf,
+    BcfRaw,
+    Fasta,
+    Fastq,
+    Gff,
+    Gtf,
+    Bed,
 }
 
-pub const ALL_KINDS: &[Kind] = &[Kind::Bgzf, Kind::Sam, Kind::SamGz, Kind::Bam, Kind::BamRaw];
+pub const ALL_KINDS: &[Kind] = &[
+    Kind::Bgzf,
+    Kind::Sam,
+    Kind::SamGz,
+    Kind::Bam,
+    Kind::BamRaw,
+    Kind::Vcf,
+    Kind::VcfGz,
+    Kind::Bcf,
+    Kind::BcfRaw,
+    Kind::Fasta,
+    Kind::Fastq,
+    Kind::Gff,
+    Kind::Gtf,
+    Kind::Bed,
+];
+
+/// kinds whose readers C12 exercises under the delivery adversary
+pub const C12_KINDS: &[Kind] = ALL_KINDS;
 
 /// kinds whose files C13 truncates (the statement's list; plain text is excluded)
-pub const C13_KINDS: &[Kind] = &[Kind::Bgzf, Kind::SamGz, Kind::Bam, Kind::BamRaw];
+pub const C13_KINDS: &[Kind] = &[Kind::Bgzf, Kind::SamGz, Kind::Bam, Kind::BamRaw, Kind::VcfGz, Kind::Bcf, Kind::BcfRaw];
 
 /// binary index kinds: a truncated file must give Err or an equal index
 pub fn index_kind(_k: Kind) -> bool {
@@ -31,7 +58,7 @@ pub fn index_kind(_k: Kind) -> bool {
 }
 /// raw record streams: a cut inside a record must be an error
 pub fn record_stream_kind(k: Kind) -> bool {
-    matches!(k, Kind::BamRaw)
+    matches!(k, Kind::BamRaw | Kind::BcfRaw)
 }
 /// container formats: a cut inside a container must be an error
 pub fn container_kind(_k: Kind) -> bool {
@@ -40,6 +67,10 @@ pub fn container_kind(_k: Kind) -> bool {
 
 pub fn variant_name(kind: Kind, v: u8) -> &'static str {
     match kind {
+        Kind::Fasta => ["records", "read_definition+read_sequence", "Indexer"][(v % 3) as usize],
+        Kind::Fastq => ["records", "Indexer"][(v % 2) as usize],
+        Kind::Gff | Kind::Gtf => ["lines", "record_bufs"][(v % 2) as usize],
+        Kind::Bed => "read_record",
         Kind::Bgzf => ["read_to_end", "read-777", "fill_buf"][(v % 3) as usize],
         Kind::Bam => ["records", "record_bufs", "read_record+positions"][(v % 3) as usize],
         _ => ["records", "record_bufs"][(v % 2) as usize],
@@ -54,6 +85,15 @@ impl Kind {
             Kind::SamGz => "sam.gz",
             Kind::Bam => "bam",
             Kind::BamRaw => "bam-raw-stream",
+            Kind::Vcf => "vcf",
+            Kind::VcfGz => "vcf.gz",
+            Kind::Bcf => "bcf",
+            Kind::BcfRaw => "bcf-raw-stream",
+            Kind::Fasta => "fasta",
+            Kind::Fastq => "fastq",
+            Kind::Gff => "gff",
+            Kind::Gtf => "gtf",
+            Kind::Bed => "bed",
         }
     }
     /// number of reading-protocol variants (lazy/buf records, ...)
@@ -61,11 +101,15 @@ impl Kind {
         match self {
             Kind::Bgzf => 3,
             Kind::Sam | Kind::SamGz | Kind::BamRaw => 2,
+            Kind::Vcf | Kind::VcfGz | Kind::Bcf | Kind::BcfRaw => 2,
+            Kind::Fasta => 3,
+            Kind::Fastq | Kind::Gff | Kind::Gtf => 2,
+            Kind::Bed => 1,
             Kind::Bam => 3,
         }
     }
     pub fn is_bgzf_container(self) -> bool {
-        matches!(self, Kind::Bgzf | Kind::SamGz | Kind::Bam)
+        matches!(self, Kind::Bgzf | Kind::SamGz | Kind::Bam | Kind::VcfGz | Kind::Bcf)
     }
 }
 
@@ -173,6 +217,61 @@ pub fn make(spec: &FileSpec) -> io::Result<Made> {
                 }
             }
         }
+        Kind::Vcf | Kind::VcfGz | Kind::Bcf | Kind::BcfRaw => {
+            let params = gvcf::gen_params(&mut rng, spec.size_class);
+            let model = gvcf::generate(&params);
+            let parsed = variant::parse_model(&model)?;
+            let expected = variant::expected_items(&model);
+            match spec.kind {
+                Kind::Vcf => {
+                    let file = variant::write_vcf(Vec::new(), &parsed)?;
+                    let b = line_boundaries(&file);
+                    (file, expected, b, None)
+                }
+                Kind::VcfGz => {
+                    let file = variant::write_vcfgz(Vec::new(), &parsed)?;
+                    let (b, flat) = bgzf_boundaries(&file);
+                    (file, expected, b, flat)
+                }
+                Kind::Bcf => {
+                    let mut file = Vec::new();
+                    variant::write_bcf(&mut file, &parsed)?;
+                    let (b, flat) = bgzf_boundaries(&file);
+                    (file, expected, b, flat)
+                }
+                _ => {
+                    let file = variant::write_bcf_raw(Vec::new(), &parsed)?;
+                    let b = bcf_raw_boundaries(&file);
+                    (file, expected, b, None)
+                }
+            }
+        }
+        Kind::Fasta => {
+            let m = gtext::fasta(&gtext::gen_params(&mut rng, spec.size_class));
+            let mut b = m.starts.clone();
+            b.push(m.text.len());
+            let e = text::fasta_expected(&m);
+            (m.text, e, b, None)
+        }
+        Kind::Fastq => {
+            let m = gtext::fastq(&gtext::gen_params(&mut rng, spec.size_class));
+            let mut b = m.starts.clone();
+            b.push(m.text.len());
+            let e = text::fastq_expected(&m);
+            (m.text, e, b, None)
+        }
+        Kind::Gff | Kind::Gtf | Kind::Bed => {
+            let p = gtext::gen_params(&mut rng, spec.size_class);
+            let m = match spec.kind {
+                Kind::Gff => gtext::gff(&p),
+                Kind::Gtf => gtext::gtf(&p),
+                _ => gtext::bed(&p),
+            };
+            let mut b = m.starts.clone();
+            b.push(m.text.len());
+            let e: Vec<String> = m.lines.iter().map(|l| format!("L|{l}")).collect();
+            (m.text, e, b, None)
+        }
     };
     Ok(Made {
         spec: spec.clone(),
@@ -202,6 +301,27 @@ pub fn bam_raw_boundaries(b: &[u8]) -> Vec<usize> {
     out.push(p);
     while let Some(bs) = rd(p) {
         p += 4 + bs;
+        if p > b.len() {
+            break;
+        }
+        out.push(p);
+    }
+    out
+}
+
+/// Record starts in an uncompressed BCF stream: magic(5) l_text(4) text, then l_shared(4) l_indiv(4) ...
+pub fn bcf_raw_boundaries(b: &[u8]) -> Vec<usize> {
+    let mut out = vec![0usize];
+    let rd = |p: usize| -> Option<usize> {
+        b.get(p..p + 4)
+            .map(|x| u32::from_le_bytes(x.try_into().unwrap()) as usize)
+    };
+    let mut p = 5;
+    let Some(l_text) = rd(p) else { return out };
+    p += 4 + l_text;
+    out.push(p);
+    while let (Some(ls), Some(li)) = (rd(p), rd(p + 4)) {
+        p += 8 + ls + li;
         if p > b.len() {
             break;
         }
@@ -273,6 +393,15 @@ pub fn read(kind: Kind, variant: u8, src: Source) -> Obs {
             v => align::read_bam(src, mode(v), items),
         },
         Kind::BamRaw => align::read_bam_raw(src, mode(variant), items),
+        Kind::Vcf => variant::read_vcf(src, mode(variant), items),
+        Kind::VcfGz => variant::read_vcfgz(src, mode(variant), items),
+        Kind::Bcf => variant::read_bcf(src, mode(variant), items),
+        Kind::BcfRaw => variant::read_bcf_raw(src, mode(variant), items),
+        Kind::Fasta => text::read_fasta(src, variant, items),
+        Kind::Fastq => text::read_fastq(src, variant, items),
+        Kind::Gff => text::read_gff(src, variant, items),
+        Kind::Gtf => text::read_gtf(src, variant, items),
+        Kind::Bed => text::read_bed(src, variant, items),
         }
     })
 }
@@ -285,11 +414,22 @@ fn mode(variant: u8) -> align::Mode {
     }
 }
 
+/// Does `Made.expected` describe what this variant yields (else only End::Eof is checked by the
+/// domain self-test)?
+pub fn has_model(kind: Kind, variant: u8) -> bool {
+    match kind {
+        Kind::Fasta | Kind::Fastq => variant == 0,
+        Kind::Gff | Kind::Gtf => variant == 0,
+        Kind::Bed => false,
+        _ => true,
+    }
+}
+
 /// The H|/R| part of an observation (positions and other variant-specific items removed).
 pub fn content_items(items: &[String]) -> Vec<String> {
     items
         .iter()
-        .filter(|s| s.starts_with("H|") || s.starts_with("R|") || s.starts_with("B|"))
+        .filter(|s| s.starts_with("H|") || s.starts_with("R|") || s.starts_with("L|"))
         .cloned()
         .collect()
 }
